@@ -17,6 +17,38 @@ CHECKS = {
   "idl.New is called under recover() in a child process with a per-worker crash journal and a hang monitor, on every truncation of core descriptions, token sequences, endings in every token class and comment form, byte injections at every position, nesting bombs up to 64 KiB and random bytes. Result must be exactly one of tree/error.",
   "Hang = one parse exceeding 20 s with parser frames on the stack (bounded progress); inputs limited to 64 KiB as the property states.",
   "runtime monitor: panic/fatal-exit/hang monitor around the real parser over generated hostile inputs", "DESIGN.md §4 C09"),
+ "C01": ("e-conn", "exploration",
+  "Real Service on a socket, scripted dispatcher whose behaviour is carried by each call, raw clients that pipeline and segment request bytes, N concurrent connections per round. A sequential model of one connection (written from the statement) predicts the reply frames and the handler log; observed frames (number-exact JSON), EOF position, handler log (target, flags as seen, result of every reply attempt), one-handler-at-a-time gauge and peer attribution must match. Holds on the scripts, segmentations and interleavings that were run; nothing is claimed about others.",
+  "Trusted: the ~150-line connection model, encoding/json as tokenizer, the kernel's FIFO accept queue (barrier probe). Connections ended by the service with unread pipelined data are run on unix sockets only.",
+  "runtime monitor: reference-model oracle over recorded wire bytes and handler event log, concurrent connections, segmentation schedules", "DESIGN.md §4 C01"),
+ "C02": ("e-pair", "exploration",
+  "A recording / re-segmenting proxy between a real Connection and a real Service captures both directions; every captured stream must split at NUL into exactly as many chunks as messages were sent, each a valid JSON object; values must arrive identically under every re-segmentation (as read, byte-wise, random pieces) and under exact partitions around the 4096-byte buffer on both receiving sides; every message length in windows around 4096 and 8192 (thorough 65536) is produced in both directions.",
+  "Trusted: the proxy (forwards bytes verbatim, records what it read), json.Valid. Callers pass valid UTF-8.",
+  "runtime monitor: wire-capture framing oracle + reference-model equality under segmentation schedules", "DESIGN.md §4 C02"),
+ "C03": ("e-pair", "exploration",
+  "Real Connection <-> real Service through the proxy on all four transports (filesystem unix, abstract unix, TCP, bridge subprocess); generated hostile JSON documents as call and reply parameters in three passing styles and three call styles incl. more-sequences of 1..17 replies. Oracle: number-exact JSON equality of what the handler read vs what was passed and of what receive yielded vs what the handler replied; Continues on all but the last reply.",
+  "Trusted: the 60-line JSON equality (encoding/json tokenizer, numbers compared as literal text).",
+  "runtime monitor: round-trip value-equality oracle over recorded handler and client observations, 4 transports", "DESIGN.md §4 C03"),
+ "C04": ("e-conn", "exploration",
+  "Adversarial sets of registered interface names x adversarial method strings, each connection ending with a GetInfo (still usable) and optionally a non-call frame followed by a call that must never be dispatched. The routing model from the statement predicts the single reply per call and the exact dispatcher invocation log (which dispatcher, which method name, once); any handler event for another dispatcher or peer is a violation.",
+  "Trusted: the routing model (split at last '.', exact table lookup). Names compared as exact byte strings.",
+  "runtime monitor: reference-model oracle over reply frames and per-dispatcher invocation log", "DESIGN.md §4 C04"),
+ "C10": ("e-conn", "fault_enumeration",
+  "Every generated byte stream (valid, mutated, wrong-shape, shuffled, random, unterminated) is aborted at EVERY byte offset, once by half-close (exact model oracle on replies and dispatches) and once by immediate close (prefix oracle), 48 aborts per round sharing the service with a well-behaved connection judged by the exact C01 oracle; plus aborts during multi-MiB replies and 8 MiB unterminated frames. After each configuration the active-connection counter must be 0, Shutdown must make the serving call return nil, and a service with an idle timeout must stop with ServiceTimeoutError. Process death in a journalled case is a violation.",
+  "Trusted: frame classifier written from the statement; frames whose meaning depends on decoder details (case-variant / duplicate keys) are judged for crash and ordering only. Return after Shutdown / timeout is bounded progress (30 s).",
+  "runtime monitor: fault injection (client abort at every byte offset) + reference-model oracle + resource-release monitor (white-box counter, serving-call return)", "DESIGN.md §4 C10"),
+ "C11": ("e-client", "fault_enumeration",
+  "A scripted raw server plays each reply stream under a segmentation schedule and dies at EVERY byte offset; the real Connection calls Send once and receive until the stream ends. Each receive result is judged by the reply model (valid reply: number-exact parameters + Continues; error frame: dedicated typed error / *varlink.Error with exact name and parameters; invalid or wrong-shape: some error; truncated: io.ErrUnexpectedEOF; never a panic). All 16 flag words x 3 parameter kinds: forbidden combinations write zero bytes (barrier call), legal ones put exactly the requested members on the wire.",
+  "Trusted: reply classifier from the statement; the scripted server reads the whole request before dying (orderly EOF, no reset).",
+  "runtime monitor: fault injection (server death at every byte offset) + reference-model oracle over receive results and captured request bytes", "DESIGN.md §4 C11"),
+ "C12": ("e-pair", "exploration",
+  "Scripted handler sends ReplyError(name, params) followed by a final reply; the real client and the recording proxy observe. Oracle from the statement: well-formed names outside org.varlink.service arrive as *varlink.Error with exactly that name (also on the wire) and number-exact parameters (none stays none); dot-less and reserved names are refused with an error to the handler and zero frames on the wire; the four built-in helpers arrive as their typed errors carrying exactly the given Unicode string.",
+  "Trusted: the 10-line name model. Names with an empty member part: consistency only.",
+  "runtime monitor: reference-model oracle over client error values, handler step results and captured wire frames", "DESIGN.md §4 C12"),
+ "C13": ("e-pair", "exploration",
+  "Histories of register / duplicate register / serve / register-while-serving / shutdown / register-again / serve-again on one Service object with hostile identity strings and descriptions; after every operation done while serving a real client compares GetInfo, GetInterfaceDescription (every listed name and 7 near-misses each), Resolver.GetInfo and Resolver.Resolve with a small model; RegisterInterface must be refused exactly when duplicate or serving.",
+  "Trusted: the model (ordered name list + description map + serving flag). Non-empty names, valid UTF-8.",
+  "runtime monitor: model-based history checking through the client helpers", "DESIGN.md §4 C13"),
 }
 
 NOT_YET = {}
@@ -63,6 +95,9 @@ def main():
         },
         "engines": extra.get("engines", [
             {"name": "e-idl", "path": "harness/internal/eng/idl_*.go", "serves_properties": ["C05", "C06", "C09"], "kind_free_text": "generators + reference-tree / print-equality / totality monitors around idl.New"},
+            {"name": "e-conn", "path": "harness/internal/eng/conn_*.go, model.go, netcommon.go", "serves_properties": ["C01", "C04", "C10"], "kind_free_text": "raw-socket scripted connections against a real Service with a scripted dispatcher; sequential connection model; abort enumeration"},
+            {"name": "e-pair", "path": "harness/internal/eng/pair_*.go", "serves_properties": ["C02", "C03", "C12", "C13"], "kind_free_text": "real Connection <-> real Service through a recording, re-segmenting proxy on 4 transports"},
+            {"name": "e-client", "path": "harness/internal/eng/client_c11.go", "serves_properties": ["C11"], "kind_free_text": "real Connection against a scripted raw server with death offsets"},
         ]),
         "checks": checks,
         "not_applicable": na,
